@@ -144,7 +144,7 @@ func drawCommonArgs(t *rapid.T) []string {
 func drawC09(t *rapid.T) *Case {
 	p := &Plan{Check: "C09"}
 	p.Args = drawCommonArgs(t)
-	cps, metas := DrawFront(t, FrontOpts{MinClients: 1, MaxClients: 4, MaxReqs: 3, HeaderGen: drawFwdHeaders, Segment: true})
+	cps, metas := DrawFront(t, FrontOpts{MinClients: 1, MaxClients: 4, MaxReqs: 3, HeaderGen: drawFwdHeaders, Segment: true, SchemeHTTPPct: 25, FillCanonCachePct: 35})
 	p.Clients = cps
 	p.Tape, p.Tail = drawTape(t, 64)
 	c := &Case{Plan: p, Metas: metas, Oracle: oracleC09}
